@@ -1,1 +1,60 @@
+(* C03 — non-vacuity: concrete operands meeting the theorems' hypotheses, and worked results. *)
+From Coq Require Import ZArith Bool String Floats.
 From V.C03 Require Import Model Spec Proofs.
+Open Scope Z_scope.
+
+Definition nolib : golib :=
+  {| parse_float := fun _ => None; fmt_float := fun _ => ""%string;
+     pow_float := fun _ _ => nan; obj_str := fun _ _ => ""%string |}.
+
+(* hypotheses of model_is_ref_on_D are satisfiable, non-trivially *)
+Example ex_inD_mul : inD OMul (VInt 2) (VFloat 1.5) = true /\ wf (VInt 2) = true /\ wf (VFloat 1.5) = true.
+Proof. repeat split. Qed.
+Example ex_mul : binop_eval nolib false OMul (VInt 2) (VFloat 1.5) = Val (VFloat 3).
+Proof. vm_compute. reflexivity. Qed.
+Example ex_sub : binop_eval nolib false OSub (VInt 2) (VFloat 0.5) = Val (VFloat 1.5).
+Proof. vm_compute. reflexivity. Qed.
+Example ex_wrap : binop_eval nolib false OAdd (VInt maxint) (VInt 1) = Val (VInt minint).
+Proof. vm_compute. reflexivity. Qed.
+Example ex_quo : binop_eval nolib false OQuo (VInt 6) (VInt 3) = Val (VFloat 2).
+Proof. vm_compute. reflexivity. Qed.
+Example ex_div0 : binop_eval nolib false OQuo (VInt 1) (VFloat (-0)) = Throw /\
+                  binop_eval nolib false ORem (VFloat 5) (VFloat 0.5) = Throw.
+Proof. split; vm_compute; reflexivity. Qed.
+Example ex_pow : binop_eval nolib false OPow (VInt 3) (VInt 39) = Val (VInt 4052555153018976267).
+Proof. vm_compute. reflexivity. Qed.
+Example ex_pow_overflow : binop_eval nolib false OPow (VInt 2) (VInt 63) = Val (VFloat nan).
+Proof. vm_compute. reflexivity. Qed.   (* the float result is math.Pow's, here the dummy lib *)
+Example ex_cmp_mixed : binop_eval nolib false OLt (VInt 1) (VFloat 1.5) = Val (VBool true) /\
+                       binop_eval nolib false OEq (VInt 1) (VFloat 1.5) = Val (VBool false) /\
+                       binop_eval nolib false OCmp (VInt 1) (VFloat 1.5) = Val (VInt (-1)).
+Proof. repeat split; vm_compute; reflexivity. Qed.
+Example ex_nan_same : binop_eval nolib true OEq (VFloat nan) (VFloat nan) = Val (VBool false) /\
+                      binop_eval nolib true OEq (VFloat 1) (VFloat 1) = Val (VBool true).
+Proof. split; vm_compute; reflexivity. Qed.
+Example ex_shift : binop_eval nolib false OShl (VInt 1) (VInt (-1)) = Throw /\
+                   binop_eval nolib false OShl (VInt 1) (VInt 64) = Val (VInt 0) /\
+                   binop_eval nolib false OShr (VInt (-8)) (VInt 70) = Val (VInt (-1)).
+Proof. repeat split; vm_compute; reflexivity. Qed.
+Example ex_no_crash : binop_eval nolib false ORem (VInt 2) (VStr "a") = Throw /\
+                      binop_eval nolib false OPow (VBool true) (VInt 2) = Throw /\
+                      unop_eval nolib UNeg (VBool true) = Throw.
+Proof. repeat split; vm_compute; reflexivity. Qed.
+Example ex_truthy : ctx_eval nolib CIf (VInt (-1)) = CB true /\ ctx_eval nolib CTernary (VInt (-1)) = CB true /\
+                    ctx_eval nolib CCast (VFloat (-0.5)) = CB true /\ ctx_eval nolib CNot (VFloat (-0)) = CB false.
+Proof. repeat split; vm_compute; reflexivity. Qed.
+
+(* eq_sym_partial / cmp_lt_gt_partial: their domain predicates hold on interesting pairs *)
+Example ex_sym_dom : eq_sym_known TInt TFloat = false /\ eq_sym_known TStr TStr = false /\ eq_sym_known TInt TStr = true.
+Proof. repeat split. Qed.
+Example ex_cmp_dom : cmp_known TInt TFloat = false /\ cmp_known TBool TBool = false /\ cmp_known TNull TInt = true.
+Proof. repeat split. Qed.
+(* the `same` hypothesis: satisfiable with same = true *)
+Example ex_same : (true = true -> VInt 5 = VInt 5) /\ eq nolib true (VInt 5) (VInt 5) = Val (VBool true).
+Proof. split; [intros; reflexivity | reflexivity]. Qed.
+(* div_zero_throws hypotheses *)
+Example ex_zero_hyp : PrimFloat.eqb (tof (VFloat (-0))) 0%float = true /\ toi (VFloat 0.5) = 0.
+Proof. split; vm_compute; reflexivity. Qed.
+(* int_pow_exact: a fitting and an overflowing instance *)
+Example ex_pow_fits : pow_fits 3 39 = true /\ pow_fits 2 63 = false /\ pow_fits (-2) 63 = true.
+Proof. repeat split; vm_compute; reflexivity. Qed.
